@@ -339,6 +339,20 @@ pub fn run(ctx: &Ctx) {
                 let fixed = if b.ver != "v1" && b.ver != "v3" && j == 1 { Some(0xff) } else { None };
                 run_pke(b, &mut m, &mut rep, sk, pk, &key, g.next(), fixed, true, true);
             }
+            if b.ver != "v1" && ri == 0 {
+                // many honest seals to one recipient, each unsealed: value-dependent failures (a shared secret or an
+                // ephemeral key with a leading zero byte, 1 in 256) need hundreds of draws to show
+                let n = if thorough { 20000 } else if b.ver == "v3" { 1500 } else { 3000 };
+                for j in 0..n {
+                    let key = g.bytes(32);
+                    let before = rep.violations.len();
+                    run_pke(b, &mut m, &mut rep, sk, pk, &key, g.next(), None, true, j % 500 == 0);
+                    if rep.violations.len() > before && rep.violations.len() >= 3 {
+                        break;
+                    }
+                }
+                rep.count_n(&format!("{}.pke.seals", b.name), n as u64);
+            }
             if b.ver == "v1" && ri == 0 {
                 // RSA-KEM ciphertexts with leading zero bytes: many seals, length checked on each,
                 // unseal (slow) on those that are special and on a sample
